@@ -320,7 +320,8 @@ let run_sender (id : string) (h : header) (body : string) =
   let msg = { m_shard = ns f.(1); m_to = ns f.(2); m_from = ns f.(3); m_index = ns f.(4); m_term = ns f.(5);
               m_odi = ns f.(6); m_path = bytes_of_hex f.(7); m_fsize = ns f.(8); m_files = sfiles;
               m_witness = (f.(9) = "1") } in
-  let src = List.rev_map (fun (p, d) ->
+  (* h.files is latest first: like the file system, a later file under the same path wins *)
+  let src = List.map (fun (p, d) ->
     ((if p = "" then [] else bytes_of_hex (hex_of_string p)), d)) h.files in
   match send_snapshot dlen dsub h.cs h.did src msg with
   | None -> Printf.printf "%s panic\n" id
